@@ -78,6 +78,35 @@ def carry():
     return ops
 
 
+def faulty_then_expire():
+    """a key whose deadline was set / changed / removed after it had been stored, with the backend rejecting the NEXT write
+    of that key (during a flush or an eviction pass), then good writes, then the deadline passes, the key is collected,
+    and the store is closed and opened again: an expired key stays invisible - whatever a failed write left behind
+    in the storage must not bring it back (nor may a live key be lost)"""
+    from gen_api import NOW0, hx
+    ops = ["open a mem"]
+    now = NOW0
+    i = 0
+    for change in ("ExpireAt", "ExpireAt2", "Persist"):
+        for failing in ("flush", "gc"):
+            for nfail in (1, 2):
+                i += 1
+                k, live = hx(b"fk%d" % i), hx(b"live%d" % i)
+                ops += [f"api Set {k} 7631 0", f"api Set {live} 6c 0"]
+                if change != "ExpireAt":
+                    ops.append(f"api ExpireAt {k} {now + 5000}")
+                ops += ["flush"]
+                ops.append({"ExpireAt": f"api ExpireAt {k} {now + 300}", "ExpireAt2": f"api ExpireAt {k} {now + 300}", "Persist": f"api Persist {k}"}[change])
+                ops += [f"api Append {live} 78", f"failset {nfail}", failing, failing, "failset 0", "flush", f"api PTTL {k}", f"api Exists {k} {live}"]
+                ops += ["sleep 400", f"api Exists {k} {live}", f"api Get {k}", "gc", "gc", "ldump", "close", "reopen", "ldump",
+                        f"api Exists {k} {live}", f"api Get {k}", f"api PTTL {k}", "api Keys 2a", f"api Get {live}"]
+                now += 400
+                ops += ["sleep 6000", "gc", "ldump", "close", "reopen", "ldump", f"api Exists {k} {live}", "api Keys 2a"]
+                now += 6000
+    ops.append("dump")
+    return ops
+
+
 def run(ctx, proofs_ok):
     apicheck.run_streams(ctx, [
         {"label": "random expiry streams with exact clock steps (deterministic clock, memory backend)", "fams": ["exp", "exp", "exp", "str", "key", "list", "set"],
@@ -87,4 +116,5 @@ def run(ctx, proofs_ok):
         {"label": "absolute deadlines far in the past / future on Pebble (wall clock)", "fams": ["exp", "str", "key", "hash"],
          "n": (600, 3000), "count": (1, 6), "backend": "pebble", "events": {"gc": 0.08, "reopen": 0.03}},
     ], extra=[("deadline boundary: every observer command at T-1, T, T+1 for every way of setting a deadline", boundary(), True),
-              ("carried deadlines: which deadline the destination of an overwrite / move / store has, for every source and destination state", carry(), True)])
+              ("carried deadlines: which deadline the destination of an overwrite / move / store has, for every source and destination state", carry(), True),
+              ("deadline changed after the key was stored, the next write rejected by the backend, then expiry, collection and Close + Open", faulty_then_expire(), True)])
